@@ -142,7 +142,8 @@ def view_shows(view, raw, path, k):
             'Body.__init__', 'Body.metadata', 'Body.meta', 'Body.spec', 'Body.status', 'Meta.__init__', 'Meta.labels',
             'Meta.annotations', 'Meta.uid', 'Meta.name', 'Meta.namespace', 'Meta.creation_timestamp',
             'Meta.deletion_timestamp', 'Spec.__init__', 'Status.__init__')],
-         props=['C15', 'C05', 'C09', 'C04', 'C06', 'C07', 'C08', 'C16', 'C18'],
+         props=['C15', 'C05', 'C09', 'C04', 'C06', 'C07', 'C08', 'C16', 'C18', 'C03', 'C02', 'C14'],
+         prop_clauses={'C03': ['live'], 'C02': ['live'], 'C14': ['live']},
          clauses=['stanza_views', 'identity_fields', 'live'], canaries=['canary.uid_always_present'],
          trusted=['dicts.MappingView/ReplaceableMappingView/resolve run as real code (inlined): a view (src, path) reads src[path...] on every access'])
 def KC9(vc):
@@ -643,7 +644,8 @@ def KC3(vc):
     return (clsname, which, out)
 
 
-@harness('KC4', targets=f'{CAUSES}.ResourceCause._kwargs', props=['C15', 'C05', 'C09', 'C18', 'C17', 'C04', 'C08', 'C10'],
+@harness('KC4', targets=f'{CAUSES}.ResourceCause._kwargs', props=['C15', 'C05', 'C09', 'C18', 'C17', 'C04', 'C08', 'C10', 'C03', 'C02', 'C14'],
+         prop_clauses={'C03': ['views_are_live'], 'C02': ['views_are_live'], 'C14': ['views_are_live']},
          clauses=['total', 'parent_kwargs_kept', 'body_parts_of_the_body_at_hand', 'views_are_live'],
          canaries=['canary.always_namespaced'],
          trusted=['bodies.Body and its views run as real code (inlined): contract KC9 (arbitrary JSON bodies)'],
